@@ -217,6 +217,10 @@ ComponentPtr ComponentEntity::takeComponent(const std::string &name, bool search
 
 bool ComponentEntity::replaceComponent(size_t index, const ComponentPtr &newComponent)
 {
+    if (newComponent == nullptr) {
+        return false;
+    }
+
     bool status = false;
     auto oldComponent = component(index);
     ParentedEntityPtr parent = nullptr;
